@@ -274,7 +274,7 @@ type AnalyzedAnyObjectExpression struct {
 func (self AnalyzedAnyObjectExpression) Kind() ExpressionKind { return AnyObjectLiteralExpressionKind }
 
 func (self AnalyzedAnyObjectExpression) Span() errors.Span { return self.Range }
-func (self AnalyzedAnyObjectExpression) String() string    { return "{ ? }" }
+func (self AnalyzedAnyObjectExpression) String() string    { return "new { ? }" }
 func (self AnalyzedAnyObjectExpression) Type() Type        { return NewAnyObjectType(self.Range) }
 func (self AnalyzedAnyObjectExpression) Constant() bool    { return true }
 
